@@ -108,6 +108,7 @@ func c19Build(seed uint64, cell c19Cell) *c19Case {
 	if cell.kind != "podLabels" && r.chance(1, 8) {
 		// policies kept in a directory of their own (a policy repository): nothing to connect, the conflict is still one
 		nw, c.noWl = 0, true
+		others = append(others, nsDoc("gamma", randLabels(r, 0))) // never an empty directory: the control must have something to read
 	}
 	for k := 0; k < nw; k++ {
 		others = append(others, workloadDoc(r, wl{pick(r, nsNames[:2]), fmt.Sprintf("w%d", k), pick(r, []string{"Deployment", "StatefulSet", "DaemonSet"}), randLabels(r, 1), randContainerPorts(r)}))
